@@ -228,6 +228,9 @@ fn residue(ws: &[i64]) -> i64 {
 type Verdict = Option<(&'static str, String)>;
 
 pub fn run_op(ctx: &mut Ctx, op: &str) {
+    if ctx.hang_limit_reached() {
+        return;
+    }
     let Some(parsed) = parse_op(op) else {
         ctx.record(op.to_string(), "bad-op".into(), false);
         return;
